@@ -270,6 +270,28 @@ async function op_query_table(req) {
     };
 }
 
+async function op_query_csv_sink(req) {
+    // array input (possibly with nested array cells) -> rbql.query -> the CSV writer.  Deep JSON snapshots of the sources before and after.
+    let input = req.input;
+    let join = req.join === undefined ? null : req.join;
+    let before_in = JSON.stringify(input), before_join = JSON.stringify(join);
+    let sink = new CollectWritable();
+    let warnings = [];
+    let error = null;
+    try {
+        let it = new rbql.TableIterator(input, req.input_cols || null);
+        let w = new rbql_csv.CSVWriter(sink, true, 'utf-8', req.delim || ',', req.policy || 'quoted');
+        let reg = join ? new rbql.SingleTableRegistry(join, req.join_cols || null) : null;
+        await rbql.query(req.query, it, w, warnings, reg, req.init_code || '');
+        await turns(2);
+    } catch (e) {
+        error = err_info(e);
+    }
+    return {error: error, warnings: warnings, bytes_hex: Buffer.concat(sink.parts).toString('hex'),
+            input_unchanged: JSON.stringify(input) === before_in, join_unchanged: JSON.stringify(join) === before_join,
+            input_after: JSON.stringify(input), join_after: JSON.stringify(join)};
+}
+
 async function op_query_batch(req) {
     let results = [];
     for (let c of req.cases) {
@@ -429,6 +451,7 @@ async function handle(req) {
         case 'write_batch': { let rs = []; for (let c of req.cases) rs.push(await op_write(c)); return {results: rs}; }
         case 'query_table': return await op_query_table(req);
         case 'query_batch': return await op_query_batch(req);
+        case 'query_csv_sink_batch': { let rs = []; for (let c of req.cases) rs.push(await op_query_csv_sink(c)); return {results: rs}; }
         case 'like_batch': return await op_like_batch(req);
         case 'roundtrip_batch': { let rs = []; for (let c of req.cases) rs.push(await op_roundtrip(c)); return {results: rs}; }
         case 'stream_vs_bulk': return await op_stream_vs_bulk(req);
